@@ -126,7 +126,10 @@ class Dense(Harness):
 
     def skeletons(self, tier, seed):
         out = []
-        for which in ("mask", "pileup"):
+        for which in ("mask", "pileup", "bedgraph_pileup"):
+            if which == "bedgraph_pileup":     # arithmetics.bedgraph.get_pileup (sort + cumsum + de-duplication of coinciding endpoints)
+                out += [dict(which=which, S=S, n=n) for S, n in ([(3, 1), (4, 2), (5, 2)] if tier == "quick" else [(4, 2), (5, 2), (6, 3), (5, 3)])]
+                continue
             if tier == "quick":
                 combos = [(S, n) for S in (1, 2, 3, 5) for n in (0, 1, 2)] + [(4, 3)]
             else:
@@ -142,6 +145,10 @@ class Dense(Harness):
         n = skel["n"]
         st, en = getse(x, n)
         iv = mk_intervals(ctx, st, en)
+        if skel["which"] == "bedgraph_pileup":
+            from bionumpy.arithmetics.bedgraph import get_pileup as bedgraph_pileup
+            m = bedgraph_pileup(iv, skel["S"])
+            return dict(dense=ctx.lst(m.to_array()), n=len(m), arg=[ctx.lst(iv.start), ctx.lst(iv.stop)])
         m = get_boolean_mask(iv, skel["S"]) if skel["which"] == "mask" else get_pileup(iv, skel["S"])
         return dict(dense=ctx.lst(m.to_array()), n=len(m), arg=[ctx.lst(iv.start), ctx.lst(iv.stop)])
 
